@@ -18,20 +18,24 @@ Definition e_neg_size : Z := 17.      Definition e_unknown_type : Z := 18.
 (* 20.. : errors that come from the underlying reader, see Model/StreamCodec.v *)
 
 Definition tid (x : Z * Z * string) : Z := snd (fst x).
-(* Thrift exception type id carried by each error code, read off the Go initialisers *)
-Definition etype (e : Z) : Z :=
-  if (e =? 1)%Z then tid thrift_errReadMessage else if (e =? 2)%Z then tid thrift_errBadVersion
-  else if (e =? 3)%Z then tid thrift_errReadField else if (e =? 4)%Z then tid thrift_errReadMap
-  else if (e =? 5)%Z then tid thrift_errReadList else if (e =? 6)%Z then tid thrift_errReadSet
-  else if (e =? 7)%Z then tid thrift_errReadStr else if (e =? 8)%Z then tid thrift_errReadBin
-  else if (e =? 9)%Z then tid thrift_errReadBool else if (e =? 10)%Z then tid thrift_errReadByte
-  else if (e =? 11)%Z then tid thrift_errReadI16 else if (e =? 12)%Z then tid thrift_errReadI32
-  else if (e =? 13)%Z then tid thrift_errReadI64 else if (e =? 14)%Z then tid thrift_errReadDouble
-  else if (e =? 15)%Z then tid thrift_errDepthLimitExceeded
-  else if (e =? 16)%Z then tid thrift_errBufferTooShort
-  else if (e =? 17)%Z then tid thrift_errNegativeSize
-  else if (e =? 18)%Z then thrift_INVALID_DATA   (* NewProtocolException(INVALID_DATA, "unknown data type %d") *)
-  else (-1)%Z.
+(* Thrift exception type id carried by each error code, read off the Go initialisers.  The table
+   is evaluated when this file is compiled (so that extraction never sees Coq strings); it is
+   recomputed whenever Gen/Consts.v changes. *)
+Definition etype_table : list (Z * Z) :=
+  Eval vm_compute in
+    [(1, tid thrift_errReadMessage); (2, tid thrift_errBadVersion); (3, tid thrift_errReadField);
+     (4, tid thrift_errReadMap); (5, tid thrift_errReadList); (6, tid thrift_errReadSet);
+     (7, tid thrift_errReadStr); (8, tid thrift_errReadBin); (9, tid thrift_errReadBool);
+     (10, tid thrift_errReadByte); (11, tid thrift_errReadI16); (12, tid thrift_errReadI32);
+     (13, tid thrift_errReadI64); (14, tid thrift_errReadDouble); (15, tid thrift_errDepthLimitExceeded);
+     (16, tid thrift_errBufferTooShort); (17, tid thrift_errNegativeSize);
+     (18, thrift_INVALID_DATA)   (* NewProtocolException(INVALID_DATA, "unknown data type %d") *)]%Z.
+Fixpoint assocZ (l : list (Z * Z)) (k : Z) : Z :=
+  match l with
+  | [] => (-1)%Z
+  | (a, b) :: r => if (a =? k)%Z then b else assocZ r k
+  end.
+Definition etype (e : Z) : Z := assocZ etype_table e.
 
 (* ---------- items of the wire format ---------- *)
 Inductive item : Type :=
@@ -129,6 +133,23 @@ Definition w_item (buf : bytes) (it : item) : res (bytes * N) :=
   | IListBegin et sz | ISetBegin et sz => w_list_begin buf et sz
   end.
 
+(* the caller's view: n := Binary.WriteX(buf[off:], v) on a buffer it owns *)
+Definition w_at (buf : bytes) (off : N) (it : item) : res (bytes * N) :=
+  do s <- slice_from buf off;
+  do (s', n) <- w_item s it;
+  Ok (take off buf ++ s', n).
+Definition w_message_begin_at (buf : bytes) (off : N) (name : bytes) (ty seq : Z) : res (bytes * N) :=
+  do s <- slice_from buf off;
+  do (s', n) <- w_message_begin s name ty seq;
+  Ok (take off buf ++ s', n).
+
+(* a sequence of in-place writes: n := Binary.WriteX(buf[off:], v); off += n *)
+Fixpoint w_seq (buf : bytes) (off : N) (its : list item) : res (bytes * list N) :=
+  match its with
+  | [] => Ok (buf, [])
+  | it :: r => do (b1, n) <- w_at buf off it; do (b2, ns) <- w_seq b1 (off + n) r; Ok (b2, n :: ns)
+  end.
+
 (* ---------- append writers, with the code's shift-and-truncate expressions ---------- *)
 (* byte(v >> k) for an unsigned v *)
 Definition shrb (v : N) (k : N) : N := (v / 2 ^ k) mod 256.
@@ -187,29 +208,6 @@ Definition l_item (it : item) : N :=
   end.
 Definition l_message_begin (name : bytes) : N := 4 + (4 + len name) + 4.
 
-(* ---------- stream writers: the bufiox.Writer operations each BufferWriter method performs ---------- *)
-Inductive wop : Type :=
-| WMallocFill (bs : bytes)    (* buf := Malloc(len bs); fill buf with bs *)
-| WWriteBinary (v : bytes).   (* w.WriteBinary(v) *)
-Definition wop_bytes (o : wop) : bytes := match o with WMallocFill b => b | WWriteBinary v => v end.
-
-Definition sw_item (it : item) : list wop :=
-  match it with
-  | IBool v => [WMallocFill [if v then 1 else 0]]
-  | IByte v => [WMallocFill [u8 v]]
-  | II16 v => [WMallocFill (be 2 (u16 v))]
-  | II32 v => [WMallocFill (be 4 (u32 v))]
-  | II64 v => [WMallocFill (be 8 (u64 v))]
-  | IDouble v => [WMallocFill (be 8 (v mod two64))]
-  | IBinary v | IString v => [WMallocFill (be 4 (len v mod two32)); WWriteBinary v]
-  | IFieldBegin t id => [WMallocFill [u8 t; (u16 (id / 256)%Z) mod 256; u8 id]]
-  | IFieldStop => [WMallocFill [u8 thrift_STOP]]
-  | IMapBegin kt vt sz => [WMallocFill ([u8 kt; u8 vt] ++ be 4 (u32 sz))]
-  | IListBegin et sz | ISetBegin et sz => [WMallocFill ([u8 et] ++ be 4 (u32 sz))]
-  end.
-Definition sw_message_begin (name : bytes) (ty seq : Z) : list wop :=
-  [WMallocFill (be 4 (msg_first_word ty) ++ be 4 (len name mod two32) ++ name ++ be 4 (u32 seq))].
-
 (* ---------- buffer readers ---------- *)
 Definition need (buf : bytes) (k : N) (e : Z) : res unit :=
   if len buf <? k then Err e else Ok tt.
@@ -254,7 +252,10 @@ Definition r_list_begin_gen (e : Z) (buf : bytes) : res (Z * Z * N) :=
 Definition r_list_begin := r_list_begin_gen e_read_list.
 Definition r_set_begin := r_list_begin_gen e_read_set.
 
-(* ReadMessageBegin: (name, type, seq, l) *)
+(* ReadMessageBegin: (name, type, seq, l).  buf[off:] is a checked operation (Panic when off > len);
+   the errors of ReadString / ReadI32 are replaced by errReadMessage. *)
+Definition to_msg_err {A} (r : res A) : res A :=
+  match r with Err _ => Err e_read_message | x => x end.
 Definition r_message_begin (buf : bytes) : res (bytes * Z * Z * N) :=
   if len buf <? 4 then Err e_read_message
   else
@@ -262,17 +263,12 @@ Definition r_message_begin (buf : bytes) : res (bytes * Z * Z * N) :=
     if negb (N.land header (Z.to_N thrift_msgVersionMask) =? Z.to_N thrift_msgVersion1) then Err e_bad_version
     else
       let ty := Z.of_N (N.land header (Z.to_N thrift_msgTypeMask)) in
-      match r_string (drop 4 buf) with
-      | Ok (name, l) =>
-        let off := 4 + l in
-        match r_i32 (drop off buf) with
-        | Ok (seq, l2) => Ok (name, ty, seq, off + l2)
-        | Err _ => Err e_read_message
-        | Panic w => Panic w | OOB => OOB
-        end
-      | Err _ => Err e_read_message
-      | Panic w => Panic w | OOB => OOB
-      end.
+      do b1 <- slice_from buf 4;
+      do (name, l) <- to_msg_err (r_string b1);
+      let off := 4 + l in
+      do b2 <- slice_from buf off;
+      do (seq, l2) <- to_msg_err (r_i32 b2);
+      Ok (name, ty, seq, off + l2).
 
 (* kinds of items, for the generic reader *)
 Inductive kind := KBool | KByte | KI16 | KI32 | KI64 | KDouble | KBinary | KString
